@@ -297,7 +297,8 @@ Proof.
   intros HN. unfold ext_ring. apply Forall_flat_map. intros v Hv. apply in_seq in Hv.
   unfold ext_vert. assert (Hz : 0 <= zn v < zn n) by (unfold zn; lia).
   destruct apex as [ap|]; repeat (apply Forall_cons; [cbn; repeat split|]); try apply Forall_nil;
-    destruct (Nat.eqb v 0) eqn:E; try (right; reflexivity); left; lia.
+    destruct (Nat.eqb v 0) eqn:E; try (right; reflexivity); left;
+    try apply Nat.eqb_neq in E; unfold zn in *; lia.
 Qed.
 
 Lemma total_nonneg sizes : 0 <= total sizes.
